@@ -62,9 +62,13 @@ type Case struct {
 	Opt       string    `json:"opt,omitempty"` // none|default|all|sort|merge|prop
 	Parts     [][]int   `json:"parts,omitempty"`
 	// sub-millisecond parts of the window bounds handed to the engines (nanoseconds, < 1e6)
-	StartNs int64 `json:"start_ns,omitempty"`
-	EndNs   int64 `json:"end_ns,omitempty"`
-	Tags      []string  `json:"tags,omitempty"`
+	StartNs int64    `json:"start_ns,omitempty"`
+	EndNs   int64    `json:"end_ns,omitempty"`
+	Tags    []string `json:"tags,omitempty"`
+	// kernel cases: reference times (selectPoint) or range ends (selectPoints), range, offset
+	Refs    []int64 `json:"refs,omitempty"`
+	KRange  int64   `json:"krange,omitempty"`
+	KOffset int64   `json:"koffset,omitempty"`
 }
 
 func (c *Case) Instant() bool { return c.Step == 0 }
